@@ -680,6 +680,21 @@ func check(verifDir, repo, id, tier, replay string) int {
 					cannot = append(cannot, fmt.Sprintf("replay of %s could not run: %v\n%s", rp, err, out))
 					continue
 				}
+				if rl.Sig == v.Sig && rl.LogHash != v.LogHash {
+					// same violation, other event log: the worker's log was taken in a process that had
+					// executed this run before (state of the changed tree outside the simulator). The
+					// fresh process is the reference: its log goes into the replay file, and a second
+					// fresh process has to reproduce that one exactly.
+					rf.LogHash = rl.LogHash
+					if len(rl.Log) > 0 {
+						rf.Log = rl.Log
+					}
+					b, _ := json.MarshalIndent(rf, "", " ")
+					os.WriteFile(rp, b, 0o644)
+					if rl2, _, err2 := runReplay(bins[v.Tier], scratch, id, rp, knownSigs, meta); err2 == nil && rl2 != nil && rl2.Sig == rl.Sig && rl2.LogHash == rl.LogHash {
+						v.LogHash = rl.LogHash
+					}
+				}
 				if rl.Sig != v.Sig || rl.LogHash != v.LogHash {
 					cannot = append(cannot, fmt.Sprintf("replay of %s did not reproduce (got sig=%q hash=%s, want sig=%q hash=%s): harness nondeterminism", rp, rl.Sig, rl.LogHash, v.Sig, v.LogHash))
 					unreproduced++
